@@ -222,4 +222,33 @@ def all_contracts(thorough: bool) -> list[str]:
     refs += [f"nested({d}, {k!r})" for d in ((1, 2, 3, 4, 6) if thorough else (1, 2, 3)) for k in (ks if thorough else ("str", "int"))]
     refs += [f"siblings({a!r}, {b!r})" for a, b in ((("int", "str"), ("str", "null"), ("bool", "int")) if thorough else (("int", "str"),))]
     refs += [f"meta_fields({a!r}, {b!r})" for a, b in ((("str", "int"), ("null", "bool")) if thorough else (("str", "int"),))]
+    refs += [f"frontmatter({k!r})" for k in (ks if thorough else ("str",))]
     return refs
+
+
+def frontmatter(kind: str) -> VF.FunctionContract:
+    """a document with YAML frontmatter and a grammar sentinel: the frontmatter text is emitted between --- lines byte for
+    byte (leading / trailing whitespace and indentation included), then a blank line, the sentinel, the envelope"""
+
+    def sec(a):
+        return _items(S.attr(a.doc, "sections"))[0]
+
+    doc = VF.Obj("Document", AST, build=_build("Document"), name=VF.Str(), meta=VF.FixedDict(), sections=VF.FixedList(_assign(kind)), has_separator=VF.Const(False), raw_frontmatter=VF.Str(), trailing_comments=VF.FixedList(), grammar_version=VF.Str(), **_node_common())
+
+    def pre(a):
+        fm = S.attr(a.doc, "raw_frontmatter")
+        gv = S.attr(a.doc, "grammar_version")
+        return S.And(_not_always_quoted(S.attr(sec(a), "key")), S.Not(S.str_eq(S.strip(fm), "")), S.Not(S.str_eq(gv, "")))
+
+    return VF.FunctionContract(
+        EMITTER,
+        "emit",
+        label=f"#DOC[frontmatter, sentinel, KEY::{kind}]",
+        params={"doc": doc, "format_options": VF.Const(None)},
+        pre=pre,
+        posts={"frontmatter-verbatim-then-strict-layout": lambda a, r: _eq(r, lambda: _cat("---\n", S.attr(a.doc, "raw_frontmatter"), "\n---\n\nOCTAVE::", S.attr(a.doc, "grammar_version"), "\n===", S.attr(a.doc, "name"), "===\n", S.attr(sec(a), "key"), "::", _ev(S.attr(sec(a), "value"), 0), "\n===END===\n"))},
+        callee_contracts={EMITTER + ":emit_value": emit_value_contract},
+        inline_depth=6,
+        raises=(),
+        replay_hints=[(lambda fm=fm: {"doc": _build("Document")(name="N", raw_frontmatter=fm, grammar_version="6.0.0", sections=[_build("Assignment")(key="K", value={"int": 1, "str": "x", "bool": True, "null": None}[kind])]), "format_options": None}) for fm in ("  name: x\n  description: y", "name: x\n", "\nname: x", "name: x  ", "\tname: x")],
+    )
